@@ -37,6 +37,7 @@ static void slots(int nThreads, int opsPerThread, int initKind, long maxSched) {
     for (int ki = 0; ki < 2; ki++) { alpha.push_back(OpSpec{'I', ki, mkRec(ki)}); alpha.push_back(OpSpec{'P', ki, Rec{K[ki], 0, 0, 0, 0, 0}}); }
     alpha.push_back(OpSpec{'I', 2, mkRec(2)});
     alpha.push_back(OpSpec{'I', 0, Rec{K[0], 0, 77, 9, TType::T_EXACT, 5}});   // insert with empty move (keeps an earlier move)
+    alpha.push_back(OpSpec{'I', 1, Rec{K[1], 155, 33, 5, TType::T_LE, SearchConst::UNKNOWN_SCORE}});   // insert without a static evaluation (what the search stores when it has none)
     int nOps = nThreads * opsPerThread;
     std::vector<int> sel(nOps, 0);
     unsigned long long progId = 0;
@@ -255,6 +256,30 @@ static void plyShift() {
     }
 }
 
+// ---------------------------------------------------------------- setBusy keeps the record
+/** TranspositionTable::setBusy re-stores an entry with the busy flag; the record read back at the same ply must be unchanged (mate scores included). */
+static void busyKeepsRecord() {
+    TT tt(512);
+    unsigned long long id = 0;
+    for (int s = -32000; s <= 32000; s += (abs(s) >= SearchConst::MATE0 - 300 ? 1 : 997)) {
+        if (!W->mine(id++)) continue;
+        for (int p = 0; p <= 40; p += (p < 16 ? 1 : 8)) {
+            bool win = SearchConst::isWinScore(s), lose = SearchConst::isLoseScore(s);
+            if ((win && s + p > 32767) || (lose && s - p < -32767) || abs(s) > SearchConst::MATE0) continue;
+            U64 key = 0x5a5a000000000040ULL + ((U64)(unsigned)(s + 40000) << 20) + (U64)p;
+            Move m(Square(12), Square(28), 0); m.setScore(s);
+            tt.insert(key, m, TType::T_EXACT, p, 9, 17);
+            TT::TTEntry e; tt.probe(key, e);
+            if (e.getType() == TType::T_EMPTY) continue;
+            tt.setBusy(e, p);
+            TT::TTEntry e2; tt.probe(key, e2);
+            R.count("states"); R.count("transitions", 3); if (win || lose) R.count("nontrivial");
+            if (e2.getType() == TType::T_EMPTY || e2.getScore(p) != s || e2.getDepth() != 9 || e2.getEvalScore() != 17 || e2.getType() != TType::T_EXACT)
+                R.violation("setBusy-changes-record", "score " + std::to_string(s) + " at ply " + std::to_string(p) + " reads back " + (e2.getType() == TType::T_EMPTY ? std::string("nothing") : std::to_string(e2.getScore(p))), "{\"kind\":\"input\",\"score\":" + std::to_string(s) + ",\"ply\":" + std::to_string(p) + "}");
+        }
+    }
+}
+
 // ---------------------------------------------------------------- index range
 static std::vector<U64> keyPatterns(U64 mask48) {
     std::vector<U64> lows = {0, mask48, 0xAAAAAAAAAAAAULL & mask48, 0x555555555555ULL & mask48};
@@ -339,7 +364,7 @@ int main(int argc, char** argv) {
     if (w.args.has("replay")) { fprintf(stderr, "replay: re-run the part; programs and schedules are deterministic\n"); w.finish(R); return 0; }
     if (part == "slots") slots((int)w.args.getInt("threads", 2), (int)w.args.getInt("ops", 2), (int)w.args.getInt("init", 0), w.args.getInt("maxsched", 0));
     else if (part == "weak") weakProduct((int)w.args.getInt("threads", 2), (int)w.args.getInt("ops", 2), (int)w.args.getInt("init", 0), w.args.getInt("maxcombos", 4000000));
-    else if (part == "ply") plyShift();
+    else if (part == "ply") { plyShift(); busyKeepsRecord(); }
     else if (part == "index") indexSweep(thorough);
     else if (part == "real") {
         std::vector<int> mbs; std::istringstream is(w.args.get("mb", "7,8,16,64")); std::string t; while (std::getline(is, t, ',')) mbs.push_back(atoi(t.c_str()));
